@@ -8,7 +8,7 @@ from hypothesis import strategies as st
 
 from vf.core import Sub
 from vf.oracles.shp import shift_spec_time, to_shp
-from vf.strategies import ALL_KINDS, MAXF, T_SCALES, F_SCALES, geom_dict, geometry_spec, ref_bounds
+from vf.strategies import ALL_KINDS, MAXF, T_SCALES, F_SCALES, geom_dict, geometry_spec, leaves, ref_bounds
 
 PROP = "C06"
 TECHNIQUE = "property-based testing: metamorphic relations (range, symmetry, self, disjointness, time shift) + closed-form oracles (box IoU, 1-D IoU band) + differential IoU of independently buffered shapes, over all 81 ordered type pairs"
@@ -283,9 +283,25 @@ def check(spec, ctx):
         if abs(a12 - exp) > 1e-9:
             ctx.fail(f"affinity {a12} for {k1}/{k2} differs from IoU {exp} of the geometries buffered with ({tb},{fb})", spec, a12, exp, kind="iou_of_buffered")
 
-    # shift invariance
-    if e1[0] > 0 and e2[0] > 0 and b1[0] - tb > 0 and b2[0] - tb > 0:
-        dt = spec["dt"]
+    # shift invariance - asserted when t -> t + dt reproduces the shapes: floating-point addition must not move any time by more than
+    # 1e-9 of the smallest time gap of the pair (a box 2e-19 s wide collapses to zero width when shifted to t = 1)
+    def times_of(k, c):
+        if k == "TimeStamp":
+            return [c]
+        if k == "TimeInterval":
+            return list(c)
+        if k == "BoundingBox":
+            return [c[0], c[2]]
+        return [q[0] for q in leaves(c)]
+
+    dt = spec["dt"]
+    all_t = sorted(set(times_of(k1, g1.coordinates) + times_of(k2, g2.coordinates)))
+    gaps = [b - a for a, b in zip(all_t, all_t[1:])] + ([tb] if tb > 0 else [])
+    shift_err = max(abs(((t + dt) - dt) - t) for t in all_t)
+    faithful = shift_err <= 1e-9 * min(gaps) if gaps else shift_err == 0
+    if not faithful:
+        ctx.label("shift_inexact_skipped")
+    if faithful and e1[0] > 0 and e2[0] > 0 and b1[0] - tb > 0 and b2[0] - tb > 0:
         try:
             h1 = data.geometry_validate({"type": k1, "coordinates": shift_spec_time(k1, g1.coordinates, dt)}, mode="dict")
             h2 = data.geometry_validate({"type": k2, "coordinates": shift_spec_time(k2, g2.coordinates, dt)}, mode="dict")
